@@ -24,6 +24,11 @@ type Mutant struct {
 	Expect  string `json:"expect"` // rule id prefix that must fire, e.g. "C03.1"
 	Why     string `json:"why"`
 	Source  string `json:"source,omitempty"` // calibration | design | seeded/<id>
+	// More: further edits of the same file, applied after Find/Replace
+	More []struct {
+		Find    string `json:"find"`
+		Replace string `json:"replace"`
+	} `json:"more,omitempty"`
 }
 
 type mutantResult struct {
@@ -57,6 +62,14 @@ func Thorough(c *core.Ctx, repo, verif string) {
 		return
 	}
 	defer os.RemoveAll(tmp)
+	// obligations already violated on the unmodified tree (known findings): a
+	// variant counts as detected only through an obligation that is new
+	baseline := map[string]bool{}
+	for _, o := range c.Obs {
+		if o.Verdict == "violated" {
+			baseline[o.Rule+" "+o.Key] = true
+		}
+	}
 	results := make([]mutantResult, len(ms))
 	sem := make(chan struct{}, 4)
 	var wg sync.WaitGroup
@@ -79,6 +92,19 @@ func Thorough(c *core.Ctx, repo, verif string) {
 				return
 			}
 			mod := strings.Replace(string(src), m.Find, m.Replace, 1)
+			stale := false
+			for _, e := range m.More {
+				if strings.Count(mod, e.Find) != 1 {
+					stale = true
+					break
+				}
+				mod = strings.Replace(mod, e.Find, e.Replace, 1)
+			}
+			if stale {
+				res.Status = "stale"
+				results[i] = res
+				return
+			}
 			mf := filepath.Join(tmp, fmt.Sprintf("m%d.go", i))
 			os.WriteFile(mf, []byte(mod), 0o644)
 			cmd := exec.Command(exe, "-property", c.Prop, "-tier", "quick", "-repo", repo, "-verif", verif, "-mutant-run", "-overlay", m.File+"="+mf)
@@ -98,7 +124,7 @@ func Thorough(c *core.Ctx, repo, verif string) {
 				f := strings.Split(l, "\t")
 				if len(f) >= 4 && f[0] == "MUTANT-OB" {
 					res.Reported = append(res.Reported, f[1]+" "+f[2]+" "+f[3])
-					if f[1] == "violated" && (f[2] == m.Expect || strings.HasPrefix(f[2], m.Expect+".") || strings.HasPrefix(f[2], m.Expect)) {
+					if f[1] == "violated" && !baseline[f[2]+" "+f[3]] && (f[2] == m.Expect || strings.HasPrefix(f[2], m.Expect+".") || strings.HasPrefix(f[2], m.Expect)) {
 						res.Status = "detected"
 					}
 				}
